@@ -67,7 +67,9 @@ func (c *Cache) AddEntry(sname types.PrincipalName, a types.Authenticator) {
 
 // addEntry adds an entry to the Cache. The caller must hold the write lock.
 func (c *Cache) addEntry(sname types.PrincipalName, a types.Authenticator) {
-	ct := a.CTime.Add(time.Duration(a.Cusec) * time.Microsecond)
+	// The instant in UTC: time.Time values are compared with == as map keys, and that comparison includes the location,
+	// which differs from one decoding to the next when the client time was encoded with a numeric zone offset.
+	ct := a.CTime.UTC().Add(time.Duration(a.Cusec) * time.Microsecond)
 	ce, ok := c.entries[a.CName.PrincipalNameString()]
 	if !ok {
 		ce = clientEntries{
@@ -105,7 +107,7 @@ func (c *Cache) ClearOldEntries(d time.Duration) {
 // IsReplay tests if the Authenticator provided is a replay within the duration defined. If this is not a replay add the entry to the cache for tracking.
 // The look up and the insertion happen under one lock so that concurrent presentations of the same Authenticator cannot all be told it is not a replay.
 func (c *Cache) IsReplay(sname types.PrincipalName, a types.Authenticator) bool {
-	ct := a.CTime.Add(time.Duration(a.Cusec) * time.Microsecond)
+	ct := a.CTime.UTC().Add(time.Duration(a.Cusec) * time.Microsecond)
 	verifYield("IsReplay:Lock")
 	c.mux.Lock()
 	defer c.mux.Unlock()
